@@ -628,6 +628,48 @@ def _opt_map(eng, st, args, ci):
     return _fork_on_option(eng, st, v, on_some, lambda s: [(s, 'ret', NONE)])
 
 
+def _fork_on_result(eng, st, v, on_ok, on_err):
+    res = []
+    ok_c = _discr_is(v, 0)
+    o_feas = eng.feasible(st, ok_c)
+    e_feas = eng.feasible(st, z3.Not(ok_c))
+    if o_feas and e_feas:
+        s2 = st.fork()
+        s2.assume(z3.Not(ok_c))
+        res.extend(on_err(s2, v.payloads[1].items[0]))
+        st.assume(ok_c)
+        res.extend(on_ok(st, v.payloads[0].items[0]))
+    elif o_feas:
+        res.extend(on_ok(st, v.payloads[0].items[0]))
+    elif e_feas:
+        res.extend(on_err(st, v.payloads[1].items[0]))
+    return res
+
+
+@intrinsic(r'^((std|core)::result::)?Result::<.*>::map::<', 'Result::map (closure body = real MIR)')
+def _res_map(eng, st, args, ci):
+    v, f = args
+
+    def on_ok(s, x):
+        out = []
+        for (s2, kind, val) in eng.call_value(s, f, [x], None):
+            out.append((s2, kind, Enum('Result', 0, {0: Tup([val])}) if kind == 'ret' else val))
+        return out
+    return _fork_on_result(eng, st, v, on_ok, lambda s, e: [(s, 'ret', Enum('Result', 1, {1: Tup([e])}))])
+
+
+@intrinsic(r'^((std|core)::result::)?Result::<.*>::map_err::<', 'Result::map_err (closure body = real MIR)')
+def _res_map_err(eng, st, args, ci):
+    v, f = args
+
+    def on_err(s, e):
+        out = []
+        for (s2, kind, val) in eng.call_value(s, f, [e], None):
+            out.append((s2, kind, Enum('Result', 1, {1: Tup([val])}) if kind == 'ret' else val))
+        return out
+    return _fork_on_result(eng, st, v, lambda s, x: [(s, 'ret', Enum('Result', 0, {0: Tup([x])}))], on_err)
+
+
 @intrinsic(r'^((std|core)::option::)?Option::<.*>::map_or::<', 'Option::map_or (closure body = real MIR)')
 def _opt_map_or(eng, st, args, ci):
     v, d, f = args
